@@ -1,7 +1,8 @@
 """C15  SyncFlag and Mailbox hand over every event exactly once.
 
-For every configuration (flag / mailbox, plain-process or coroutine idiom, tx/rx delay, one or two contexts on one
-clock) a wrapper entity (verif/gen/c15_wrappers.py) is compiled by the real compiler, the emitted VHDL is simulated
+For every configuration (flag / mailbox, plain-process or coroutine idiom - incl. conditional waits between observing
+and consuming / between is_clear and set, and `async with flag:` helper coroutines with no / unconditional / conditional
+/ nested return -, tx/rx delay, one or two contexts on one clock) a wrapper entity (verif/gen/c15_wrappers.py) is compiled by the real compiler, the emitted VHDL is simulated
 by vsim, and the product (design) x (hand-over monitor, verif/ref/c15_models.py) x (environment: each clock the
 producer wants to send or not - with every payload - and the consumer is willing or not) is explored to
 exhaustion.  Safety rules R1-R5 of the monitor are checked on every transition; liveness (every outstanding event is
@@ -24,7 +25,7 @@ MAX_STATES = 1_000_000
 
 
 class HandoverSystem:
-    """choice = (send_req, data, recv_rdy)"""
+    """choice = (send_req, data, recv_rdy, *extra inputs of the idiom kinds)"""
 
     def __init__(self, sim, cfg):
         self.sim = sim
@@ -36,9 +37,15 @@ class HandoverSystem:
         self.sid = {n: p[n][0] for n in p}
         self.ty = {n: p[n][1] for n in p}
         vals = range(1 << W.DATA_W) if self.mb else (0,)
-        self.menu = [(0, 0, r) for r in (0, 1)] + [(1, v, r) for v in vals for r in (0, 1)]
+        self.extra = W.extra_inputs(cfg)
+        self.idiom = W.is_idiom(cfg)
+        rdys = (0, 1) if W.uses_rdy(cfg) else (0,)
+        ext = [()]
+        for _ in self.extra:
+            ext = [e + (b,) for e in ext for b in (0, 1)]
+        self.menu = [(s_, v, r) + e for s_, vs in ((0, (0,)), (1, vals)) for v in vs for r in rdys for e in ext]
         N = sim.N
-        for n in ("clk", "send_req", "recv_rdy"):
+        for n in ("clk", "send_req", "recv_rdy") + self.extra:
             N[self.sid[n]] = 0
         if self.mb:
             N[self.sid["data"]] = (0, 0)
@@ -63,11 +70,13 @@ class HandoverSystem:
         return tuple(S[self.sid[n]] for n in self.outs)
 
     def apply(self, ch):
-        send, data, rdy = ch
+        send, data, rdy = ch[:3]
         sim = self.sim
         N = sim.N
         N[self.sid["send_req"]] = send
         N[self.sid["recv_rdy"]] = rdy
+        for n, v in zip(self.extra, ch[3:]):
+            N[self.sid[n]] = v
         if self.mb:
             N[self.sid["data"]] = (data, 0)
         sim.settle()
@@ -82,6 +91,14 @@ class HandoverSystem:
         if sim.PR:
             return f"intermediate variable read before written: {sim.poisoned_reads()}"
         g = self.get
+        if self.idiom:
+            got, dropped = g("got"), g("dropped")
+            if None in (g("sent"), got, dropped):
+                return f"undefined event outputs sent={g('sent')} got={got} dropped={dropped}"
+            if got and dropped:
+                return "one event reported as taken and as discarded"
+            return self.mon.events(g("sent"), g("sent_data") if self.mb else None, 0, got or dropped,
+                                   g("got_data") if self.mb and got else None)
         if self.coro:
             ev = (g("sent"), g("sent_data") if self.mb else None, g("saw_clear"), g("got"), g("got_data") if self.mb else None)
             if None in ev[0:1] + ev[2:4]:
@@ -95,7 +112,22 @@ class HandoverSystem:
 
     # goals / strategies for liveness
     def delivered_now(self):
+        if self.idiom:
+            return self.get("got") == 1 or self.get("dropped") == 1
         return self.get("got" if self.coro else "consumed") == 1
+
+    def strategies(self, send):
+        """deterministic environments under which the hand-over has to make progress: the consumer is willing, a
+        conditional wait is released (go=1); whether a wait / discard is requested is tried both ways"""
+        base = (send, 1 if send else 0, 1)
+        if not self.extra:
+            return [base]
+        if self.extra == ("hold", "go"):
+            return [base + (0, 1), base + (1, 1)]
+        out = [()]
+        for _ in self.extra:
+            out = [e + (b,) for e in out for b in (0, 1)]
+        return [base + e for e in out]
 
 
 def build(cfg):
@@ -119,21 +151,26 @@ IDLE = (0, 0, 0)
 def liveness(system, space, out):
     states = list(space.states)
     # L1: consumer willing, producer silent -> nothing stays outstanding
-    bad, steps = eventually(system, states, lambda s: RECV_ONLY, lambda s: s.mon.pending is None)
-    out["liveness_steps"] += steps
-    if bad is not None:
-        s, msg = bad
-        return ("deliver", space.trace_to(s), msg or
-                "an event is outstanding and the consumer is willing every clock, but the event is never delivered (lost / deadlock)")
+    for strat in system.strategies(0):
+        bad, steps = eventually(system, states, lambda s: strat, lambda s: s.mon.pending is None)
+        out["liveness_steps"] += steps
+        if bad is not None:
+            s, msg = bad
+            return ("deliver", space.trace_to(s) + ["strategy", strat], msg or
+                    f"an event is outstanding and the consumer is willing every clock (environment {strat} for good), "
+                    "but the event is never delivered (lost / deadlock)")
     # L2: both active for good -> a delivery happens again and again (no deadlock of the whole cycle)
-    bad, steps = eventually(system, states, lambda s: SEND_ALL, lambda s: s.delivered_now())
-    out["liveness_steps"] += steps
-    if bad is not None:
-        s, msg = bad
-        return ("cycle", space.trace_to(s), msg or
-                "producer wants to send and consumer is willing every clock, but no further event is ever delivered (deadlock)")
+    for strat in system.strategies(1):
+        bad, steps = eventually(system, states, lambda s: strat, lambda s: s.delivered_now())
+        out["liveness_steps"] += steps
+        if bad is not None:
+            s, msg = bad
+            return ("cycle", space.trace_to(s) + ["strategy", strat], msg or
+                    f"producer wants to send and consumer is willing every clock (environment {strat} for good), "
+                    "but no further event is ever delivered (deadlock)")
     # L3: idle for good -> observations exact (plain-process wrappers only: they expose the observations)
     if not system.coro:
+        IDLE = (0, 0, 0)
         rec, steps, viol = recurrent_states(system, states, lambda s: IDLE)
         out["liveness_steps"] += steps
         if viol is not None:
@@ -198,6 +235,11 @@ def replay_config(cfg, kind, trace):
     if trace is None:
         r = run_config(cfg)
         return r.get("what") if r["status"] == "violation" else None
+    strat = None
+    if "strategy" in trace:
+        i = trace.index("strategy")
+        strat = tuple(trace[i + 1])
+        trace = trace[:i]
     for ch in trace:
         msg = system.apply(tuple(ch))
         if msg is not None:
@@ -205,7 +247,7 @@ def replay_config(cfg, kind, trace):
     if kind in ("safety", "idle"):
         return None
     if kind in ("deliver", "cycle"):
-        ch = RECV_ONLY if kind == "deliver" else SEND_ALL
+        ch = strat if strat is not None else (RECV_ONLY if kind == "deliver" else SEND_ALL)
         goal = (lambda: system.mon.pending is None) if kind == "deliver" else system.delivered_now
         seen = set()
         s = system.snapshot()
@@ -309,8 +351,9 @@ def main(run: Run):
     run.coverage_extra.update(
         exhaustive=not run.capped,
         rule="for every configuration the complete reachable product state space (design x monitor) under all "
-             "per-clock choices (send or not x every payload x consumer willing or not); liveness decided exactly on "
-             "the reachable set under the receive-only / always-send-and-receive / idle environments; distinct_nontrivial = "
+             "per-clock choices (send or not x every payload x consumer willing or not x every value of the idiom inputs "
+             "hold/go resp. discard/discard2); liveness decided exactly on the reachable set under the receive-only / "
+             "always-send-and-receive (each with the idiom inputs tried both ways, waits released) / idle environments; distinct_nontrivial = "
              "configurations whose exploration showed more than one distinct observable output vector",
         evaluations=run.counters.get("transitions", 0),
         distinct_nontrivial=run.counters.get("configs_with_distinct_outcomes", 0),
@@ -327,7 +370,7 @@ def replay(run: Run, data):
             return False
         return True
     ev = data.get("events")
-    trace = [tuple(e) for e in ev] if ev is not None else None
+    trace = [e if isinstance(e, str) else tuple(e) for e in ev] if ev is not None else None
     try:
         msg = replay_config(cfg, kind, trace)
     except rt.SimError as e:
